@@ -136,6 +136,22 @@ def gen_assign(rng):
 
             ops.append({'op': 'add_file', 'tree': tn, 'change': 0,
                         'attrs': attrs})
+        elif k < 19 and rng.chance(0.4):
+            # a content section constructed directly with an option that
+            # belongs to another kind of section (or to none)
+            cls = rng.choice(sorted(domgen.SECTION_ATTRS))
+            bad = rng.choice([a for a in ('line_endings', 'indent', 'format',
+                                          'mimetype', 'type', 'version',
+                                          'bogus', 'meta', 'files')
+                              if a not in domgen.SECTION_ATTRS[cls]])
+            attrs = {bad: {'line_endings': 'dos', 'indent': 2,
+                           'format': 'json', 'mimetype': 'text/plain',
+                           'type': 'text', 'version': '1.0'}.get(bad, 1)}
+
+            if rng.chance(0.5):
+                attrs = dict({'encoding': 'utf-8'}, **attrs)
+
+            ops.append({'op': 'new_section', 'cls': cls, 'attrs': attrs})
         elif k < 19:
             a = rng.choice(['preamble', 'meta', 'encoding', 'version'])
             ops.append({'op': 'new_tree', 'tree': 'T2',
@@ -397,6 +413,16 @@ def execute(scn, L):
                                                    else 'invalid'))
                 out.states.add('%s|ctor-rejected|%s' % (
                     kind, 'unknown' if unknown else 'invalid'))
+        elif name == 'new_section':
+            known = domgen.SECTION_ATTRS.get(op.get('cls'), ())
+            unknown = [a for a in op.get('attrs', {}) if a not in known]
+
+            if r['outcome'] == 'ok' and unknown:
+                out.violate('C19.unknown-attribute-accepted', '%s:%s' % (
+                    op.get('cls'), unknown[0]), {'op': op})
+            elif unknown:
+                nrej += 1
+                out.probe('section_ctor_attr_rejected')
         elif name == 'tweak' and r['outcome'] == 'ok':
             out.probe('tweak:' + str(op.get('how')))
 
